@@ -494,6 +494,42 @@ def l3_models(chk, ctx, rng, n):
         if not ok:
             chk.fail(key, 'spectrum changes by %.3g (scale %.3g) when the model is re-expressed relative to a reference size %g times larger' % (err, scale, c), inp)
 
+def l3_onepop_X(chk, ctx, rng, n):
+    """the X-chromosome integrator one_pop_X is one of the public integrators: linear in (phi, theta0) and invariant under the
+    reference-size re-scaling, constant and time-dependent parameters, beta and alpha != 1 (seed C03-14: theta0 and alpha swapped at the
+    call of the constant-parameter helper)"""
+    dadi = ctx['dadi']; I = dadi.Integration
+    if not hasattr(I, 'one_pop_X'): return
+    for it in range(n):
+        pts = int(rng.integers(12, 26)); xx = dadi.Numerics.default_grid(pts)
+        phi1 = gen.density(rng, [pts]); phi2 = gen.density(rng, [pts])
+        nu = gen.loguniform(rng, 0.2, 5); g = float(rng.uniform(-4, 4)); h = float(rng.uniform(0, 1))
+        beta = float(rng.choice([1.0, 0.5, 2.0])); alpha = float(rng.choice([1.0, 2.5, 0.4]))
+        T = float(rng.uniform(0.02, 0.15)); th1 = float(rng.uniform(0.3, 3)); th2 = float(rng.uniform(0.3, 3))
+        a = float(rng.uniform(0.2, 2)); b = float(rng.uniform(0.2, 2)); c = float(rng.choice([0.05, 0.4, 3.0, 20.0]))
+        varying = False      # one_pop_X is implemented for constant parameters only (a function of time raises NotImplementedError, as documented)
+        def run(phi, theta, cc=1.0):
+            nuv = (lambda t, v=nu * cc: v) if varying else nu * cc
+            return I.one_pop_X(phi.copy(), xx, T * cc, nu=nuv, gamma=g / cc, h=h, beta=beta, alpha=alpha, theta0=theta / cc)
+        inp = dict(pts=pts, nu=nu, gamma=g, h=h, beta=beta, alpha=alpha, T=T, theta1=th1, theta2=th2, a=a, b=b, c=c, varying=varying, phi1=phi1, phi2=phi2)
+        key = 'one_pop_X:varying=%s' % varying
+        chk.l3((key, beta != 1.0, alpha != 1.0))
+        try:
+            r12 = run(a * phi1 + b * phi2, a * th1 + b * th2); r1 = run(phi1, th1); r2 = run(phi2, th2)
+            rz = run(np.zeros(pts), th1); rz2 = run(np.zeros(pts), 2.5 * th1)
+            rc = run(phi1, th1, c)
+        except Exception as e:
+            chk.fail(key + ':raises:' + type(e).__name__, 'one_pop_X raises %r' % (e,), inp); continue
+        ok, err, scale = close(r12, a * r1 + b * r2, rtol=1e-9)
+        if not ok:
+            chk.fail(key + ':superposition', 'one_pop_X(a*phi1+b*phi2, a*theta1+b*theta2) differs from a*result1+b*result2 by %.3g (scale %.3g)' % (err, scale), inp)
+        ok, err, scale = close(rz2, 2.5 * rz, rtol=1e-9)
+        if not ok:
+            chk.fail(key + ':theta0-scaling', 'one_pop_X from the zero density is not proportional to theta0: off by %.3g (scale %.3g)' % (err, scale), inp)
+        ok, err, scale = close(rc, r1, rtol=1e-8)
+        if not ok:
+            chk.fail(key + ':rescale', 'one_pop_X re-expressed relative to c=%g times the reference size differs by %.3g (scale %.3g)' % (c, err, scale), inp)
+
 def run(chk, ctx):
     tier = ctx['tier']; rng = common.Rng(ctx['seed'], 'C03')
     chk.rule = ('K: dt rule on random 1-5 population parameter sets; one full time step / 1-3 step const and affine-in-time runs in 1-5 populations, '
@@ -518,6 +554,7 @@ def run(chk, ctx):
     l3_equilibrium(chk, ctx, rng, 48 if q else 480)
     l3_equilibrium_X(chk, ctx, rng, 6 if q else 30)
     l3_models(chk, ctx, rng, 16 if q else 96)
+    l3_onepop_X(chk, ctx, common.Rng(ctx['seed'], 'C03-X'), 10 if q else 60)
 
 def replay(chk, ctx, data):
     run(chk, ctx)
